@@ -107,8 +107,15 @@ def split_weight(t, env=None):
             coef = 1 if c > 0 else -1
         for a in mono:
             ea = pow2_exp(a, env)
+            while a[0] == "cast":
+                a = a[2]
             if ea is not None:
                 e = sym.add(e, ea)
+            elif a[0] == "op" and a[1] == "<<":
+                # (x << s) = x * 2^s modulo the word: the shifted factor joins the product, the shift joins the weight
+                r2, e2 = split_weight(a[2], env)
+                e = sym.add(e, sym.add(e2, a[3]))
+                rest.append(r2)
             else:
                 rest.append(a)
         r = I(coef)
@@ -118,6 +125,9 @@ def split_weight(t, env=None):
     e = pow2_exp(t, env)
     if e is not None:
         return I(1), e
+    if t[0] == "op" and t[1] == "<<":
+        r2, e2 = split_weight(t[2], env)
+        return r2, sym.add(e2, t[3])
     return t, ZERO
 
 
